@@ -10,6 +10,7 @@ from __future__ import annotations
 
 import ast
 import re
+import re
 
 from ..absint import NOC
 from ..consteval import const_attr, const_expr, const_name
@@ -181,6 +182,18 @@ def r11_4(ctx: Ctx) -> None:
             ctx.violation("R11.4", fi.short, "mapping loop not gated", fi.where(lp), "special-sequence replacement runs even when text_convert is off")
         if len(reps) != 1 or len(reps[0].args) != 2:
             ctx.violation("R11.4", fi.short, "mapping loop body", fi.where(lp), "mapping loop is not a single text.replace(key, value)")
+    # inside the gate only the single replace of the mapping loop may rewrite the text
+    REWRITE = ("replace", "translate", "sub", "strip", "lstrip", "rstrip", "lower", "upper", "title", "expandtabs", "casefold", "splitlines",
+               "split", "join", "normalize", "encode", "decode", "removeprefix", "removesuffix", "center", "ljust", "rjust", "zfill", "swapcase", "capitalize")
+    loop_replaces = {id(c) for lp in loops for c in ast.walk(lp) if isinstance(c, ast.Call)}
+    for c in walk_no_nested(fi.node):
+        if isinstance(c, ast.Call) and isinstance(c.func, ast.Attribute) and c.func.attr in REWRITE and id(c) not in loop_replaces:
+            tgt = unparse(c.func.value)
+            argtxt = " ".join(unparse(a) for a in c.args)
+            if tgt in ("text", "self.text", "converted_text") or "text" in argtxt.split("(")[0:1] or re.search(r"\btext\b", argtxt):
+                ctx.violation("R11.4", fi.short, f"extra rewriting {unparse(c)[:50]}", fi.where(c),
+                              f"`{unparse(c)[:70]}` rewrites the text in addition to the documented token table and LaTeX pass; characters other than the "
+                              "documented tokens are altered (e.g. splitlines() also splits on U+2028/U+2029)")
     # any other .replace/.sub/.translate on the text outside the gate is an ungated transformation
     for c in walk_no_nested(fi.node):
         if isinstance(c, ast.Call) and isinstance(c.func, ast.Attribute) and c.func.attr in ("replace", "translate", "sub", "strip", "lstrip", "rstrip", "lower", "upper", "title", "expandtabs", "casefold"):
